@@ -124,7 +124,7 @@ def main():
              engines=[dict(name="tlc-trace", path="/verif/vcheck", serves_properties=sorted(CHECKS), kind_free_text="TLA+ specification (spec/), TLC exhaustive toy models, TLC trace validation of driver traces (harness/)")],
              checks=[CHECKS[p] for p in props if p in CHECKS],
              not_applicable=[dict(property_id=p, reason=NOT_YET.get(p, "check not yet built in this session (construction order in DESIGN.md section 13); not claimed")) for p in props if p not in CHECKS],
-             notes="See DESIGN.md. Exit codes: 0 held, 1 VIOLATION, 2 tool error.")
+             notes="See DESIGN.md (section 14 is the as-built summary). Exit codes: 0 held, 1 VIOLATION, 2 tool error. Measured on this 16-core sandbox: all 17 quick commands together about 30 min (each 5 s to 4 min); thorough commands 4 to 35 min each, except C02 (about 80 min: Apalache on the 29-bit Montgomery reduction). Checks may be run concurrently (separate work directories, per-configuration build locks). Two genuine defects were found and repaired in /repo (KNOWN_FINDINGS.txt).")
     json.dump(m, open(os.path.join(HERE, "MANIFEST.json"), "w"), indent=1)
 
 if __name__ == "__main__":
